@@ -82,6 +82,7 @@ type c13Outcome struct {
 	broadcast     bool
 	incarnations  int
 	notifyUnres   []int
+	crashStates   []ArbitratorState // persisted state at each death
 	inconclusive  string
 	contradiction []uint64
 }
@@ -290,6 +291,10 @@ func c13Run(t *testing.T, sc *ccScenario, plan *c13Plan,
 			out.inconclusive = "iteration bound"
 			return out
 		}
+		w.mu.Lock()
+		out.crashStates = append(out.crashStates,
+			c13PersistedState(w.effLog))
+		w.mu.Unlock()
 	}
 
 	// Read the durable end state from the file.
@@ -387,6 +392,60 @@ func c13K1Class(sc *ccScenario, plan *c13Plan, msg string) bool {
 	return false
 }
 
+const c13KeyContractClosedRestart = "C13:restart-in-contract-closed-uses-chain-trigger"
+
+// c13PersistedState derives the arbitrator state on disk from the effect
+// log (the last committed state).
+func c13PersistedState(effLog []string) ArbitratorState {
+	s := StateDefault
+	for _, e := range effLog {
+		if !strings.HasPrefix(e, "CommitState(") {
+			continue
+		}
+		name := strings.TrimSuffix(strings.TrimPrefix(e, "CommitState("), ")")
+		for _, c := range []ArbitratorState{StateDefault,
+			StateBroadcastCommit, StateCommitmentBroadcasted,
+			StateContractClosed, StateWaitingFullResolution,
+			StateFullyResolved, StateError} {
+
+			if c.String() == name {
+				s = c
+			}
+		}
+	}
+
+	return s
+}
+
+// c13NothingUrgent reports whether the confirmed commitment holds HTLCs but
+// none of them is inside its broadcast window at the closing height (then
+// checkCommitChainActions returns an empty action map for a chain trigger).
+func c13NothingUrgent(sc *ccScenario, plan *c13Plan) bool {
+	if plan.conf > ccP {
+		return false
+	}
+	any := false
+	for i := range sc.HTLCs {
+		x := &sc.HTLCs[i]
+		if !x.On[plan.conf] {
+			continue
+		}
+		any = true
+		if !x.Incoming && plan.closeHeight+sc.DeltaOut >= x.Expiry &&
+			(x.Fwd || sc.graceOver()) {
+
+			return false
+		}
+		if x.Incoming && x.known() &&
+			plan.closeHeight+sc.DeltaIn >= x.Expiry {
+
+			return false
+		}
+	}
+
+	return any
+}
+
 func c13GenPlan(rt *rapid.T, sc *ccScenario) *c13Plan {
 	confs := []int{ccR, ccR, ccL, ccL, ccBreach, ccCoop}
 	if sc.HasPending {
@@ -419,6 +478,20 @@ func c13GenPlan(rt *rapid.T, sc *ccScenario) *c13Plan {
 
 func c13Compare(base, run *c13Outcome, sc *ccScenario, plan *c13Plan,
 	st *vstats.Collector) error {
+
+	// Known finding: a restart while the persisted state is
+	// StateContractClosed re-executes the stage with a chain trigger and
+	// creates no HTLC resolvers unless some HTLC is urgent.
+	for _, cs := range run.crashStates {
+		if cs == StateContractClosed && c13NothingUrgent(sc, plan) &&
+			ccKnown(c13KeyContractClosedRestart) {
+
+			st.Known(c13KeyContractClosedRestart)
+			st.Count("excluded_known", 1)
+
+			return nil
+		}
+	}
 
 	if run.state != base.state {
 		return fmt.Errorf("terminal state %v, uninterrupted %v",
@@ -485,6 +558,7 @@ func TestVerifC13Crash(t *testing.T) {
 	rapid.Check(t, func(rt *rapid.T) {
 		sc := ccGenScenario(rt, ccGenOpts{
 			maxHTLCs: 4, noInvoice: true,
+			sameRemoteDust: ccKnown(c12KeyDustBitMapOrder),
 		})
 		plan := c13GenPlan(rt, sc)
 
